@@ -167,10 +167,18 @@ Fixpoint capture_arg (fuel : nat) (s : string) : string * string :=
       end
   end.
 
-(** after "NAME(": n arguments separated by "," and the closing ")" *)
+(** [[ \t]*]: a run of blanks and TABs (these two characters only) *)
+Fixpoint skip_blanks (s : string) : string :=
+  match s with
+  | String a r => if is_blank_or_tab a then skip_blanks r else s
+  | EmptyString => EmptyString
+  end.
+
+(** after "NAME(": n arguments separated by "," and the closing ")"; without parameters blanks
+    and TABs may stand between the parentheses *)
 Fixpoint capture_args (fuel : nat) (n : nat) (s : string) : option (list string * string) :=
   match n with
-  | O => match s with
+  | O => match skip_blanks s with
          | String a r => if Ascii.eqb a ")" then Some ([], r) else None
          | EmptyString => None
          end
@@ -237,11 +245,16 @@ Fixpoint replace_call_aux (fuel : nat) (name : string) (ps : list string) (tmpl 
       match s with
       | EmptyString => (EmptyString, false)
       | String a r =>
+          (* \bNAME[ \t]*\( : blanks and TABs may stand between the name and the parenthesis *)
           let try_here :=
-            if boundary_before prev && starts_with (name ++ "(") s
+            if boundary_before prev && starts_with name s
                && negb (Nat.eqb (String.length name) 0)
-            then capture_args (String.length s) (List.length ps)
-                              (string_drop (S (String.length name)) s)
+            then match skip_blanks (string_drop (String.length name) s) with
+                 | String c r' =>
+                     if Ascii.eqb c "(" then capture_args (String.length s) (List.length ps) r'
+                     else None
+                 | EmptyString => None
+                 end
             else None in
           match try_here with
           | Some (args, rest) =>
